@@ -493,3 +493,25 @@ Example run_example :
   let '(d', rs) := run [n] 1%N [OpCreate t; OpCreate t; OpPatch [Some (ADelete, Some t)]; OpCreate t] empty_db in
   map status rs = [201; 201; 204; 201] /\ abs 1%N d' = [t].
 Proof. vm_compute. split; reflexivity. Qed.
+
+(* ---- C13 on the handler model: no panic outcome, no 5xx without a storage failure, errors change nothing ---- *)
+Definition good_status (n : nat) : Prop := n = 200 \/ n = 201 \/ n = 204 \/ n = 400 \/ n = 404.
+
+Lemma status_of_good e : e <> E_Storage -> good_status (status_of e).
+Proof. destruct e; cbn; unfold good_status; intros H; try tauto; congruence. Qed.
+
+(* the only way a fault-free transaction fails is a statement that could not be built *)
+Definition build_errors_are (P : serr -> Prop) (ss : list stmt) : Prop := forall e, In (SFailBuild e) ss -> P e.
+Lemma exec_stmts_error P ss : build_errors_are P ss -> forall k d e, exec_stmts no_faults k ss d = RErr e -> P e.
+Proof.
+  induction ss as [|s ss IH]; intros HP k d e E; cbn [exec_stmts] in E; [discriminate|].
+  change (no_faults k) with false in E. cbv iota in E.
+  destruct (exec_stmt s d) as [d1|e1] eqn:Es.
+  - eapply IH; [|exact E]. intros e0 H0. apply HP. now right.
+  - inversion E; subst. destruct s; cbn in Es; try discriminate. inversion Es; subst. apply HP. now left.
+Qed.
+Lemma transaction_error P ss d d' e : build_errors_are P ss -> transaction no_faults ss d = (d', RErr e) -> P e.
+Proof.
+  unfold transaction. intros HP H. destruct (exec_stmts no_faults 0 ss d) as [d1|e1] eqn:E; [discriminate|]. inversion H; subst.
+  eapply exec_stmts_error; eauto.
+Qed.
